@@ -164,13 +164,17 @@ fn race_rounds(full: bool) -> usize {
     // drop/drop and clone+drop/clone+drop.
     let specs = if full { &specs[..] } else { &specs[..2] };
     let threads: &[usize] = if full { &[2, 3] } else { &[2] };
-    let patterns: &[u8] = if full { &[0, 1, 2, 3] } else { &[0, 1] };
+    let patterns: &[u8] = if full { &[0, 1, 2, 3] } else { &[0, 1, 3] };
     let mut rounds = 0;
     for spec in specs.iter() {
         for &n in threads {
             for &pattern in patterns {
+                // The zone under test is not queried before the threads start
+                // (a zone that completes itself lazily on first use must do
+                // so safely when the first uses race); the expected answer
+                // comes from a separate instance.
+                let want = interp::answer(&interp::make_tz(spec), 1, 3);
                 let tz = interp::make_tz(spec);
-                let want = interp::answer(&tz, 1, 3);
                 let handles: Vec<TimeZone> = (0..n).map(|_| tz.clone()).collect();
                 drop(tz);
                 let barrier = Arc::new(std::sync::Barrier::new(n));
